@@ -88,6 +88,14 @@ CHECKS = {
         "For deduced layouts the fallback description is compared modulo the leading/trailing punctuation and connective words every description is cleaned of.",
         "DESIGN.md section 4 C11",
     ),
+    "C08": (
+        "seeded Hypothesis generation of Twp/Rge spellings x missing directions x default channels x OCR look-alikes; model oracle",
+        "1..3 Twp/Rges with colliding numbers are written in every documented spelling, with N/S and/or E/W left out, under defaults supplied "
+        "through config text, parse() keyword, MasterConfig or not at all; the preprocessed text, find_twprge, the tracts and the fixed_twprge "
+        "warning must match the values computed from the abstract case. Under ocr_scrub the numbers are written with I/l/O/S look-alikes.",
+        "A Twp/Rge without E/W is always followed by a section keyword (text starting with E/W there is inherently ambiguous).",
+        "DESIGN.md section 4 C08",
+    ),
 }
 
 NOT_BUILT = {}
